@@ -36,6 +36,11 @@ func genC01(r *Rand, tier string, ord int) *Trial {
 	if tier == "thorough" && !many && r.P(0.05) {
 		sp.L = r.Range(61, 400) // deeper bound on the reference length in the thorough tier
 	}
+	long := !many && r.P(0.001)
+	if long { // a reference of about 2^8, 2^12 or 2^16 bases (gen.go, scale)
+		sp.L, sp.Queries, kind = (1<<uint(r.PickInt(8, 12, 16, 16)))+r.Range(-2, 40), r.Range(1, 3), "generated-long-reference"
+		sp.Ins, sp.Del, sp.Skip, sp.Conflict, sp.DelFlip = 0.002, 0.002, 0.001, 0.002, 0.002
+	}
 	sc := genSam(r, sp)
 	o := Opts{Wrap: -1, Start: -1, End: -1, Threads: 1}
 	o.Pad = r.P(0.4)
@@ -50,9 +55,15 @@ func genC01(r *Rand, tier string, ord int) *Trial {
 	}
 	if r.P(0.4) {
 		o.Wrap = r.PickInt(1, 2, 3, 7, 60, sp.L)
+		if long && o.Wrap < 7 {
+			o.Wrap = 80
+		}
 	}
 	t := &Trial{Kind: kind, Case: Case{Cmd: "toma", Files: map[string]string{"sam": sc.Text()}, Opts: o}, Params: map[string]string{}}
 	t.Runs = genRunCfgs(r, 3)
+	if long {
+		wideRuns(t.Runs)
+	}
 	if many {
 		scaleHorizon(t.Runs, 10*sp.Queries)
 		if r.P(0.5) {
